@@ -36,6 +36,7 @@ def run(ctx):
                 timeout=tmo, twin="_lf_reach",
             )
         )
+    conds.append(xh.Cond("lint-file restricted to F examines what lint examines, intersected with F, under every include option and VCS answer", "C03.py", "_subsetflags", {}, timeout=tmo, twin="_subsetflags_reach"))
     conds.append(xh.Cond("lint-file: the files named on the command line are the ones examined, from any working directory, however root and files are spelled", "C03.py", "_lintfile", {}, timeout=tmo, twin="_lintfile_reach"))
     ctx.functions_encoded = [
         "reuse.cli.lint_file.lint_file path handling + reuse.covered_files.iter_files with subset_files, over a path algebra with a working directory (resolve() collapses '..', absolute() does not; no symlinks)",
@@ -53,6 +54,8 @@ def run(ctx):
     ctx.assumptions = ["after the solver has fixed a project state every value is concrete: the solver's part is exhaustive exploration of the state space"]
 
     def confirm(c, ex):
+        if c.func == "_subsetflags":
+            return f"lint-vs-lint-file:{ex['dir']}:{ex['include_submodules']}:{ex['include_meson_subprojects']}", f"lint examines {ex['lint_examines']}, lint-file with every file named {ex['lint_file_all_named']}, with only h.py named {ex['lint_file_only_h']} ({ex})", {"harness": "C03.py::_subsetflags", "explain": ex}
         if c.func == "_lintfile":
             return f"lint-file-spelling:{ex['cwd']}:{ex['root']}:{ex['named']}", f"lint-file {ex['named']!r} from {ex['cwd']} with root {ex['root']!r}: {ex['outcome']}, examined {ex['examined']}, expected {ex['expected']}", {"harness": "C03.py::_lintfile", "explain": ex}
         story = ex.get("story")
